@@ -1,6 +1,6 @@
 import os, sys
 sys.path.insert(0, os.path.join(os.path.dirname(os.path.abspath(__file__)), '..', 'common'))
-import srcsets_tree
+import srcsets_tree, srcsets_real
 SRCS = srcsets_tree.BTC_TREE + ['src/pop/storage/util.cpp']
 
 
@@ -16,6 +16,12 @@ HARNESSES = [
       {'bound': 'all 32-bit heights/statuses/header fields, 0..2 refs with arbitrary heights', 'timeout': 200}, {'bound': 'as quick', 'timeout': 600}),
     H('h_save', 'MODE_SAVE', ['saveTree writes exactly the dirty indices and the tip and clears every dirty flag'],
       {'defines': ['NBLK=4'], 'bound': 'every tree shape on 4 blocks x every dirty set', 'timeout': 200}, {'defines': ['NBLK=5'], 'bound': 'every tree shape on 5 blocks x every dirty set', 'timeout': 900, 'jobs': 16}),
+    {'name': 'h_dirty2', 'src': 'C10/h_persist2.cpp', 'entry': 'h_persist2', 'repo_srcs': srcsets_real.REAL, 'defines': ['MODE_DIRTY2'], 'covers': [1, 3, 4, 6, 7, 8, 20, 21, 23, 24, 25, 26], 'jobs': 8,
+     'obligations': ['every mutator of BlockIndex<VbkBlock>/VbkBlockAddon/PopState and BlockIndex<AltBlock>/AltBlockAddon (refs, payload ids, containing endorsements, endorsedBy, block-of-proof endorsements, flags) applied to a clean index with symbolic content: stored bytes changed => isDirty()'],
+     'rungs': {'quick': [{'bound': 'symbolic status, 0..2 refs, optional VTB/ATV ids and endorsements, one mutator out of 22', 'timeout': 250}], 'thorough': [{'bound': 'as quick', 'timeout': 600}]}},
+    {'name': 'h_stored2', 'src': 'C10/h_persist2.cpp', 'entry': 'h_persist2', 'repo_srcs': srcsets_real.REAL, 'defines': ['MODE_STORED2'], 'covers': [1], 'jobs': 4,
+     'obligations': ['StoredBlockIndex<VbkBlock> and <AltBlock>: stored bytes -> decode -> mergeFrom into a fresh index -> identical stored bytes, for all header/height/status/ref-count values, 0..2 payload ids and an optional endorsement'],
+     'rungs': {'quick': [{'bound': 'all 32-bit field values (symbolic), 0..2 payload ids per kind, 0..1 containing endorsement', 'timeout': 250}], 'thorough': [{'bound': 'as quick', 'timeout': 600}]}},
 ]
 EXPLANATION = 'Inductive invariant of incremental saving: persisted projection unchanged since the last save OR dirty; decided per mutator on an arbitrary clean index. Plus stored-index round trip and saveTree.'
-ASSUMPTIONS = ['loadTrees / recoverEndorsements on the three real trees, storage adaptors and crash points inside a batch are outside', 'VBK/ALT addons (endorsement and payload-id lists) are not yet covered by the mutator harness']
+ASSUMPTIONS = ['loadTrees / recoverEndorsements on the three real trees, storage adaptors and crash points inside a batch are outside', 'loadTree / recoverEndorsements (endorsement back-pointers rebuilt from ids) are not covered']
